@@ -392,7 +392,12 @@ def gen_c13(rng, n):
             elif which == 1:
                 last["dst"] = 1 - last["dst"]
             elif which == 2:
-                last["des"] = B("XYZ") if last["des"] != B("XYZ") else B("XYY")
+                if last["des"] and rng.random() < 0.7:
+                    # differ in exactly one character (first, middle or last)
+                    i = rng.choice([0, len(last["des"]) // 2, len(last["des"]) - 1])
+                    last["des"] = list(last["des"]); last["des"][i] = ord("Q") if last["des"][i] != ord("Q") else ord("R")
+                else:
+                    last["des"] = B("XYZ") if last["des"] != B("XYZ") else B("XYY")
             elif which == 3:
                 last["des"] = [] if last["des"] else B("UTC")
             z["rule"] = {"k": "fixed", "t": last}
@@ -421,9 +426,36 @@ def gen_c13(rng, n):
 
 
 # ---- C05 / C06 / C17 ----
+def as_findn(rng, events):
+    for e in events:
+        if e["op"] == "find":
+            a = dict(e["a"]); a["n"] = rng.choice([0, 1, 2, 8])
+            yield {"op": "findn", "a": a}
+        else:
+            yield e
+
+
+def gen_same_instant_pairs(rng, nz):
+    """two successive buffer searches for the same instant spelled differently (hh:mm:60 and the next minute :00), stale buffer"""
+    for _ in range(nz):
+        z = gen_table_zone(rng, nmax=5, offs="small", leaps=[])
+        yield zone_event(z)
+        for _ in range(6):
+            base = rng.randint(-10**9, 2 * 10**9) // 60 * 60
+            f1 = fields_of_local(base - 1, 0); f1["s"] = 60
+            f2 = fields_of_local(base, 0)
+            n = rng.choice([1, 2, 3])
+            for f in rng.choice([(f1, f2), (f2, f1)]):
+                ff = dict(f); ff["n"] = n
+                yield {"op": "findn", "a": ff}
+
+
 def gen_find_zones(rng, nzones, findn=False):
     if not findn:
         yield from gen_range_end_finds(rng, max(10, nzones // 10))
+    else:
+        yield from as_findn(rng, gen_range_end_finds(rng, max(10, nzones // 10)))
+        yield from gen_same_instant_pairs(rng, max(5, nzones // 20))
     for t in K2_RULES + K1_RULES:
         yield from gen_rule_zone_session(rng, named_rule(t), with_table=False, do_find=True, do_findn=findn, nprobe=60)
     for i in range(nzones // 2):
